@@ -41,6 +41,7 @@ def binders : Tok → Tok → List Tok → List Nat
     struct name. -/
 def structGenerics : List Tok → List Nat
   | .bkw :: .id _ :: .p 60 :: rest => takeParams rest ++ structGenerics rest
+  | .bkw :: .hole :: .p 60 :: rest => takeParams rest ++ structGenerics rest   -- `struct #name<A, B>`
   | _ :: rest => structGenerics rest
   | [] => []
 where
